@@ -90,6 +90,14 @@ pub fn shape_problem(cones: &[ConeSpec], n: usize, variant: u32, rng: &mut StdRn
             for i in 0..m { for j in 0..n { a[i][j] = ri(rng) * if (i + j) % 2 == 0 { 1e12 } else { 1e-12 }; } b[i] = ri(rng) * 1e12; }
             for j in 0..n { q[j] = ri(rng) * 1e-12; pd[j][j] = 1e12; }
         }
+        6 | 7 => { // magnitude ladder up to the ends of the finite range (products and squares overflow / underflow)
+            let ladder: &[i32] = if variant == 6 { &[0, 100, 150, 155, 160, 200, 300] } else { &[0, -100, -150, -155, -160, -200, -300] };
+            let mut pick = |rng: &mut StdRng| 10f64.powi(ladder[rng.gen_range(0..ladder.len())]);
+            let (ea, eb, eq, ep) = (pick(rng), pick(rng), pick(rng), pick(rng));
+            let nz = |rng: &mut StdRng| { let v = ri(rng); if v == 0.0 { 1.0 } else { v } };
+            for i in 0..m { for j in 0..n { a[i][j] = nz(rng) * ea; } b[i] = ri(rng) * eb; }
+            for j in 0..n { q[j] = nz(rng) * eq; pd[j][j] = rng.gen_range(0..=2) as f64 * ep; }
+        }
         4 => { // infeasible-looking right-hand sides
             for i in 0..m { for j in 0..n { a[i][j] = 0.0; } b[i] = -1.0; }
             for j in 0..n { q[j] = 1.0; }
@@ -119,7 +127,7 @@ pub fn shapes(seed: u64, sample: usize, max_len: usize, max_m: usize, wd: &Watch
     let mut combos = vec![];
     for (li, _) in lists.iter().enumerate() {
         for n in 1..=2usize {
-            for variant in 0..6u32 {
+            for variant in 0..8u32 {
                 for &mi in &[0u32, 1, 2, 200] {
                     combos.push((li, n, variant, mi));
                 }
@@ -153,9 +161,11 @@ pub fn shapes(seed: u64, sample: usize, max_len: usize, max_m: usize, wd: &Watch
         if rng.gen::<f64>() < 0.15 { s.insert("iterative_refinement_enable".into(), json!(false)); }
         if rng.gen::<f64>() < 0.15 { s.insert("direct_solve_method".into(), json!("qdldl")); }
         p.settings = Value::Object(s);
+        // every third run prints (to a buffer): the status table formats whatever magnitudes occur
+        if run % 3 == 0 { p.tag.push_str("+print"); }
         let case = json!({"run": run, "problem": p});
         wd.tick(&case);
-        let out = rec_ipm::run_ipm(run, &p, &RunOpts::default());
+        let out = rec_ipm::run_ipm(run, &p, &RunOpts { capture_print: run % 3 == 0, ..Default::default() });
         stats.runs += 1;
         cases.push(case);
         match (&out.result, &out.panic) {
